@@ -1,4 +1,5 @@
 """C15 - one decode call consumes exactly one picture of a stream."""
+import os
 from ..cfg import cfg_of
 from ..dataflow import defs_of, callee_is, strip_ref, fields_of, expr_of, strip_casts, expr_str
 from .. import effects
@@ -256,6 +257,59 @@ def picture_start(ck, F):
     else: ck.violation('PS', 'PS : decode_picture : start', where_of(b), why)
 
 
+def _errorkind_names():
+    """variant names of std::io::ErrorKind in declaration order (= discriminant), read from the toolchain's own library source"""
+    import re as _re
+    from ..facts import _sysroot
+    for sub in ('core/src/io/error.rs', 'std/src/io/error.rs'):
+        p_ = os.path.join(_sysroot(), 'lib/rustlib/src/rust/library', sub)
+        try:
+            src = open(p_).read()
+            i = src.index('pub enum ErrorKind {')
+            body = src[i:src.index('\n}', i)]
+            vs = [m.group(1) for m in _re.finditer(r'^\s{4}([A-Z]\w*),\s*$', body, _re.M)]
+            if 'UnexpectedEof' in vs: return vs
+        except (OSError, ValueError):
+            continue
+    return None
+
+
+def eof_classification(ck, F):
+    ck.rule('EK', 'what counts as "end of data": Error::is_eof_error is true exactly for an I/O error of kind UnexpectedEof - the only condition under which the macroblock loop '
+                  'ends a picture early and succeeds; every other I/O condition of the source (WouldBlock, Interrupted, ..) fails the call and changes nothing (C05)')
+    from ..bitslice import Table, dnf_diff, FALSE
+    name = 'h263_rs::error::Error::is_eof_error'
+    try:
+        b = F.body(name); T = Table(F, name)
+    except (KeyError, Unanalysable) as e:
+        ck.violation('EK', 'EK : is_eof_error : missing', None, 'Error::is_eof_error not found (%s)' % e); return
+    rows = T.return_rows().get('', {})
+    t = rows.get('1', FALSE)
+    kinds = set(); other = []
+    for c in t:
+        var = [d for d in c if d[0] == 'V' and d[1] == 'self']
+        ks = [d for d in c if d[0] in ('S', 'A') and 'kind(' in str(d[1])]
+        rest = [d for d in c if d not in var and d not in ks]
+        if len(var) != 1 or set(var[0][3]) != {'UnhandledIoError'} or len(ks) != 1 or rest: other.append(c); continue
+        d = ks[0]
+        import re as _re
+        m_ = _re.match(r'^discr\(kind\(self\.as\d+\.0\)\) in \[([0-9, ]+)\]$', d[1]) if d[0] == 'A' and d[2] is True else None
+        if d[0] == 'S' and not getattr(d[3], 'neg', False): kinds |= set(d[3])
+        elif m_: kinds |= {int(x) for x in m_.group(1).split(',')}
+        else: other.append(c)
+    names = _errorkind_names()
+    shown = sorted((names[k] if names and isinstance(k, int) and 0 <= k < len(names) else str(k)) for k in kinds)
+    if other or T.opaque or len(kinds) != 1:
+        ck.violation('EK', 'EK : is_eof_error : kinds', where_of(b), 'is_eof_error is true for I/O error kinds %s%s; expected exactly UnexpectedEof' % (shown, ' and under other conditions' if other or T.opaque else ''))
+    elif names is None:
+        ck.assumptions.append('the single io::ErrorKind accepted by is_eof_error (discriminant %s) is UnexpectedEof - the library source of the toolchain could not be read to name it' % shown)
+        ck.ok('EK', 'is_eof_error: UnhandledIoError with exactly one io::ErrorKind (discriminant %s)' % shown, where_of(b))
+    elif shown != ['UnexpectedEof']:
+        ck.violation('EK', 'EK : is_eof_error : kinds', where_of(b), 'is_eof_error is true for I/O error kind %s; expected UnexpectedEof' % shown)
+    else:
+        ck.ok('EK', 'is_eof_error <=> UnhandledIoError(kind = UnexpectedEof) (discriminant resolved through the toolchain\'s library source)', where_of(b))
+
+
 def run(ck, F, tier):
     ck.explanation = ('C15 decided structurally on MIR of the decode closure: M7 the macroblock loop is bounded by the macroblock count (exit test '
                       'dominating the macroblock parse); RS the resynchronisation probe is a union transaction whose Ok(None) arm leaves the loop without '
@@ -286,6 +340,7 @@ def run(ck, F, tier):
     c14.f_start_code(s14, F)
     picture_start(ck, F)
     macroblock_count(ck, F)
+    eof_classification(ck, F)
     # "the end of that picture's macroblock data" is where the macroblock and block layer syntax of 5.3 / 5.4 ends: a bit attributed to the wrong
     # syntax element (a DQUANT not read, a table with a wrong code length) leaves the reader inside or past the picture - the MB rules, re-run here
     from . import mblayer, c12
